@@ -712,7 +712,10 @@ namespace awkward {
     if (next > reserved_) {
       int64_t reservation = reserved_;
       while (next > reservation) {
-        reservation = (int64_t)std::ceil(reservation * resize_);
+        // always at least one more item: an initial size of 0 (or a resize
+        // factor that does not enlarge a small buffer) must not loop forever
+        int64_t bigger = (int64_t)std::ceil(reservation * resize_);
+        reservation = (bigger > reservation ? bigger : reservation + 1);
       }
       std::shared_ptr<OUT> new_buffer = std::shared_ptr<OUT>(new OUT[reservation],
                                                              kernel::array_deleter<OUT>());
